@@ -15,8 +15,8 @@
 EXTENDS Instance, Json
 
 CONSTANTS Depth, WithPd, Emitting, FreeBudget
-VARIABLES st, armed, mode, rnd, tog, res, hist, fb
-vars == <<st, armed, mode, rnd, tog, res, hist, fb>>
+VARIABLES st, armed, mode, rnd, tog, res, hist, fb, orph
+vars == <<st, armed, mode, rnd, tog, res, hist, fb, orph>>
 
 MC_Own == 5
 MC_OwnP == [p1 |-> 128, p2 |-> 128]
@@ -43,6 +43,7 @@ Init == /\ st = Init0
         /\ tog = [p \in Ports |-> [ann |-> 0, sync |-> 0, dreq |-> 0]]
         /\ res = [out |-> <<>>]
         /\ hist = <<>>
+        /\ orph = [p \in Ports |-> FALSE]     \* ghost: the port left the faulty state into LISTENING with no receipt timer armed (the recorded finding) and none was armed since
         /\ fb = FreeBudget           \* number of steps the free phase may still take (FreeBudget = 0: unbounded)
 
 TimersOf(acts) == {acts[i].k : i \in {j \in 1..Len(acts) : acts[j].a = "T"}}
@@ -54,6 +55,8 @@ Host(r, p, fired) ==
                  LET base == IF q = p THEN armed[q] \ fired ELSE armed[q]
                      acts == IF "pend" \in DOMAIN r THEN r.pend[q] ELSE IF q = p THEN r.out ELSE <<>>
                  IN base \cup TimersOf(acts)]
+  /\ orph' = [q \in Ports |-> IF "rcpt" \in armed'[q] THEN FALSE
+                               ELSE IF st.pst[q] = "F" /\ r.s.pst[q] = "L" THEN TRUE ELSE orph[q]]
   /\ tog' = [q \in Ports |->
                LET acts == IF "pend" \in DOMAIN r THEN r.pend[q] ELSE IF q = p THEN r.out ELSE <<>> IN
                [ann |-> IF SendsOf(acts, "Announce") THEN 1 - tog[q].ann ELSE tog[q].ann,
@@ -90,7 +93,7 @@ Bmca == /\ (mode = "steady" => ~rnd.b)
         /\ UNCHANGED mode
 EndRound == /\ mode = "steady" /\ rnd.a /\ rnd.b
             /\ rnd' = [a |-> FALSE, b |-> FALSE]
-            /\ UNCHANGED <<st, armed, mode, tog, res, hist, fb>>
+            /\ UNCHANGED <<st, armed, mode, tog, res, hist, fb, orph>>
 SetSo(v) == mode = "free" /\ Do([e |-> "so", v |-> v], 1, {}) /\ UNCHANGED <<mode, rnd>>
 
 \* peer delay (P2P ports): transmit timestamp of the outstanding request, responses from two responders
@@ -102,7 +105,7 @@ PdResp(p, r) == /\ WithPd /\ mode = "free" /\ st.pd[p].st # "E"
                        w2 |-> "w2_" \o ToString(r[1]), c |-> "cr_" \o ToString(r[1]), rx |-> "t4_" \o ToString(r[1])], p, {})
                 /\ UNCHANGED <<mode, rnd>>
 Settle(m) == /\ mode = "free" /\ mode' = m /\ rnd' = [a |-> FALSE, b |-> FALSE]
-             /\ UNCHANGED <<st, armed, tog, res, hist, fb>>
+             /\ UNCHANGED <<st, armed, tog, res, hist, fb, orph>>
 
 Next == \/ \E p \in Ports : FireAnn(p) \/ FireSync(p) \/ FireDreq(p) \/ FireRcpt(p) \/ FireFilt(p) \/ RecvAnn(p)
         \/ Bmca \/ EndRound
@@ -115,7 +118,7 @@ Fair == /\ \A p \in Ports : WF_vars(FireAnn(p)) /\ WF_vars(FireSync(p)) /\ WF_va
 Spec == Init /\ [][Next]_vars
 LiveSpec == Init /\ [][Next]_vars /\ Fair
 
-View == <<ViewOf(st), armed, mode, rnd, fb>>
+View == <<ViewOf(st), armed, mode, rnd, fb, orph>>
 Bound == Len(hist) < Depth
 Norm == ToJson(st') # "" /\ ToJson(res') # ""
 Emit == PrintT(<<"E", ToJson([hist |-> hist', exp |-> Proj(st') @@ res'])>>)
@@ -135,7 +138,7 @@ PdNeeds(p) == IF PCfg[p].p2p /\ st.pd[p].st # "E" THEN {"dreq"} ELSE {}
 NoOrphanWait == \A p \in Ports : (Needs(p) \cup PdNeeds(p)) \subseteq armed[p]
 \* the recorded deviation: a P2P port that was master (receipt timer spent) and recovers from the faulty state is
 \* listening without a receipt timer. Anything else is new.
-RecoveredOrphan(p) == PCfg[p].p2p /\ st.pst[p] = "L" /\ "rcpt" \notin armed[p] /\ st.pd[p].st = "P"
+RecoveredOrphan(p) == PCfg[p].p2p /\ st.pst[p] = "L" /\ "rcpt" \notin armed[p] /\ orph[p]
 NoOrphanWaitButKnown == \A p \in Ports : (Needs(p) \cup PdNeeds(p)) \subseteq armed[p] \/ RecoveredOrphan(p)
 
 (***************************************************************************)
